@@ -407,6 +407,58 @@ func compScenarios(a map[string]string) *compScenario {
 				}
 			},
 		}
+	case "splitter2":
+		// one FileSplitter instance fed with SEVERAL files (lengths n1,n2[,n3]): every file is split on its own
+		per, _ := strconv.Atoi(a["per"])
+		lens := []int{}
+		for _, x := range strings.Split(a["lens"], ",") {
+			v, _ := strconv.Atoi(x)
+			lens = append(lens, v)
+		}
+		contents := map[string]string{}
+		names := []string{}
+		for i := range lens {
+			names = append(names, fmt.Sprintf("f%d.txt", i))
+		}
+		return &compScenario{
+			desc: fmt.Sprintf("splitter/files=%v/per=%d", lens, per),
+			setup: func() {
+				for i, n := range lens {
+					contents[names[i]] = writeLines(names[i], n, true)
+				}
+			},
+			build: func(wf *sp.Workflow) {
+				s := components.NewFileSource(wf, "src", names...)
+				sp2 := components.NewFileSplitter(wf, "split", per)
+				sp2.InFile().From(s.Out())
+				r := newRecorder(wf, "rec")
+				r.InPort("in").From(sp2.OutSplitFile())
+			},
+			oracle: func(o *Obs, add func(class, detail string)) {
+				cat := map[string]string{}
+				for _, p := range received(o.Notes)["rec"] {
+					c, ok := o.Tree[p]
+					if !ok {
+						add("splitter-missing-part", "part "+p+" was sent but does not exist")
+						return
+					}
+					if strings.Count(c, "\n") > per {
+						add("splitter-part-too-long", fmt.Sprintf("part %s has more than %d lines: %q", p, per, c))
+					}
+					i := strings.Index(p, ".split_")
+					if i < 0 {
+						add("splitter-part-name", "unexpected part name "+p)
+						continue
+					}
+					cat[p[:i]] += c
+				}
+				for _, f := range names {
+					if cat[f] != contents[f] {
+						add("splitter-concat", fmt.Sprintf("the parts of %s concatenate to %q, the file is %q", f, cat[f], contents[f]))
+					}
+				}
+			},
+		}
 	case "concatenator":
 		k, _ := strconv.Atoi(a["k"])
 		two := a["two"] == "1"
